@@ -15,21 +15,21 @@ CLAIMS = {
  "C01": "Join side of the property: trigger marks done before waking, wait registers then re-checks and returns only when the coroutine finished (all interleavings of one trigger with the waiter's steps), outcome mapping of join() for all slot combinations. Whole-runtime schedules, the single hand-off through the run queues and 'never on two threads' are NOT decided.",
  "C02": "Park/unpark decomposed into per-function contracts on the real code: token semantics, park_timeout around the suspension, subscribe's register-then-recheck from every pre-state, each waker (unpark / timer / cancel) taking the coroutine exactly once and the second waker finding nothing, the lost-wake-up window through the real yield path, ThreadPark on the parking_lot shim. The wait_kernel delay-drop window and spurious wake-ups are not decided.",
  "C03": "Index arithmetic of both block queues as Kani function contracts (complete); white-box K3 obligations: consumer never reports empty / reads a reserved unwritten slot, value written before ready/tail-index publication, last-slot block installation (complete, loop-free); sequential FIFO behaviour across block boundaries, recycling and drop as bounded scenario stand-ins. Linearizability under real concurrent producers is NOT decided.",
- "C04": "pack/unpack and mark_slots_read contracts (complete); sequential exactly-once / order of owner pop and steal_into as bounded scenario stand-ins (copy_to_bulk replaced by its contract because SmallVec+packed pointers exceed 30 GB in CBMC). Concurrent stealers, over-claim/skip paths and ABA are NOT decided.",
+ "C04": "pack/unpack and mark_slots_read contracts (complete); neither the owner's pop nor a steal takes a slot or changes the head word while another taker has the head marked (complete, one concrete heap shape); sequential exactly-once / order of owner pop and steal_into as bounded scenario stand-ins (copy_to_bulk replaced by its contract because SmallVec+packed pointers exceed 30 GB in CBMC). Concurrent stealers beyond the marked-head hand-over, over-claim/skip paths and ABA are NOT decided.",
  "C05": "lock/try_lock/unlock accounting for every count value; register-before-count ordering; unlock hands over to exactly one live waiter incl. abandoned waiters; a cancelled waiter forwards the hand-off exactly once under every interleaving of one concurrent unpark_one; with cancel disabled the hand-off is kept and not also forwarded (found and fixed D7). Fairness/liveness not decided.",
  "C06": "mpsc/spsc/mpmc channel cores: send makes the value available before it wakes/posts, a blocked or about-to-block receiver is woken by the send under every placement of one concurrent send relative to the receiver's steps, values come out once and in order through the abstract queue contract (queue FIFO itself: C03). Multi-sender/multi-receiver interleavings beyond one concurrent action are NOT decided.",
  "C07": "disconnect: receiver never parks once the last sender is past its wake-up (mpsc, every placement of the drop), drain-before-Disconnected, spsc coroutine subscribe re-checks every wake condition (found and fixed D3a), mpmc disconnect permit is sticky (found and fixed D3b), send after receiver drop returns the value.",
  "C08": "duration conversion used by every coroutine-side timed wait: never lost, never early, within one tick for all durations (Kani bit-precise + Verus unbounded, found and fixed D1); park hands the caller's duration to the timer unchanged. Timer-thread scheduling order and wall-clock promptness are NOT decided by these contracts.",
- "C09": "cancel/park interaction: subscribe re-checks the cancel bit after registering, cancel takes the coroutine exactly once and passes the Canceled result, result consumed before return; every lock-like primitive forwards a hand-off/permit/notification that raced with the cancellation exactly once (Mutex, RwLock, Semphore, SyncFlag, Condvar) and releases the mutex before the cancel panic without poisoning (poison truth table). Exactly-once drop of stack-owned values during unwinding is NOT decided (generator shim).",
+ "C09": "cancel/park interaction: subscribe re-checks the cancel bit after registering, cancel takes the coroutine exactly once and passes the Canceled result, result consumed before return; the cancel state word (disable/enable nesting, cancel bit kept while disabled, check_cancel panics only when enabled and not unwinding; bounded depth 5); every lock-like primitive forwards a hand-off/permit/notification that raced with the cancellation exactly once (Mutex, RwLock, Semphore, SyncFlag, Condvar), never waits again after it has seen the hand-off, and releases the mutex before the cancel panic without poisoning (poison truth table). Exactly-once drop of stack-owned values during unwinding is NOT decided (generator shim).",
  "C10": "one-step value contracts from every non-negative value (complete induction basis for permit conservation), register-before-decrement, post wakes exactly one and re-posts for abandoned waiters, aborted waits return the permit exactly once under every interleaving with one concurrent wakeup; SyncFlag latch for every counter value incl. late decrements.",
  "C11": "Condvar wait: enqueue-before-unlock-before-park, mutex re-acquired before every return, cancel disable/enable balanced, notification forwarded exactly once on time-out/cancel; notify_one/notify_all on queued waiters; Barrier leader arithmetic for every n, count and generation; WaitGroup drop/notify accounting (wait path bounded, thorough tier).",
  "C12": "guard accounting for every abstract state x clean/poisoned x non-blocking operation (found and fixed D2a), guard only if the caller's own CAS won under interference (found and fixed D2b), cancelled lock forwards the hand-off exactly once, cancelled read releases the reader mutex before the cancel panic. Fairness not decided.",
- "C13": "poison truth table (poisoned iff a panic started under the guard and it is not a cancellation unwind) and delivery of exactly the panic payload / Cancel by join(). Worker survival and stack reuse after a panic are NOT decided (generator shim).",
- "C14": "Join::wait returns only when the joined coroutine has finished, also when the waiter's park is ended by a cancellation (found and fixed D4 together with the scoped join running with cancel disabled). Scope::drop_all bookkeeping and Cqueue::drop are not yet under contract.",
+ "C13": "poison truth table (poisoned iff a panic started under the guard and it is not a cancellation unwind); delivery of exactly the panic payload / Cancel by join(); the panic branch of run_coroutine stores the payload before it triggers the join; a panic passing through a scope leaves the owner's cancel state as it found it (scoped join). Worker survival and stack reuse after a panic are NOT decided (generator shim).",
+ "C14": "Join::wait returns only when the joined coroutine has finished, also when the waiter's park is ended by a cancellation (found and fixed D4); the scoped join (JoinState::join) joins its child exactly once with the owner's cancellation disabled and restored afterwards, for every combination of owner context / child result / owner unwinding; Scope::drop_all runs every deferred join exactly once in order and keeps the not-yet-run joins linked in the scope while one runs (a panicking join cannot lose the rest). The re-raise through resume_unwind and Cqueue::drop are not under contract.",
  "C15": "NARROW claim: the passed-in result (time-out / cancel error) is consumed before park returns and before the cancel panic, so it cannot leak into the next coroutine on a pooled stack (C02.10), and the panic branch of run_coroutine hands the coroutine to the recycler exactly once after the join trigger (C13.1b). Privacy of LocalKey values (HashMap) and freshness of the CoroutineLocal attached by spawn are NOT decided: the life-cycle harnesses exceed CBMC's limits (DESIGN.md §9.2 item 7).",
  "C16": "poll's register-then-recheck against one select coroutine sending or ending at each of the poller's observation points (never parks unregistered or with an event queued; returns exactly the event sent, its bottom half started exactly once; Done events are not returned and trigger check_panic once; Finished only with the counter at zero); sender side pushes the event with the coroutine inside before waking. Multi-arm schedules, time-outs and Cqueue::drop are NOT decided.",
- "C17": "socket read only (the template all I/O operations follow): the try-io / re-check / yield loop clears the readiness flag before every syscall, suspends only with the flag clear, returns the kernel result verbatim (bounded: 3 attempts per call); subscribe publishes the coroutine before re-reading the flag and resumes it itself when an edge raced ahead; the selector side hands the coroutine over exactly once. Write / accept / connect / datagram operations, the epoll loop, kernel semantics and the thread proxy are NOT under contract.",
- "C18": "time-out conversion read by every I/O time-out (AtomicDuration::get) never lost / never early; timer handle removed and handed to del_timer after a timed park. I/O timer armed before the coroutine is published and iff a time-out is set; cancel re-check in the socket subscribe (C17.2a-d). timeout_handler and the epoll-side timer removal are not under contract.",
+ "C17": "socket read and socket write (the template all I/O operations follow): the try-io / re-check / yield loop clears the readiness flag before every syscall, suspends only with the flag clear, returns the kernel result verbatim (bounded: 3 attempts per call); subscribe publishes the coroutine before re-reading the flag and resumes it itself when an edge raced ahead; the selector side hands the coroutine over exactly once. Accept / connect / datagram operations, the epoll loop, kernel semantics and the thread proxy are NOT under contract.",
+ "C18": "time-out conversion read by every I/O time-out (AtomicDuration::get) never lost / never early; timer handle removed and handed to del_timer after a timed park; I/O timer armed before the coroutine is published and iff a time-out is set; cancel re-check in the socket subscribe (C17.2a-d); EventData::schedule / fast_schedule disarm the timer entry (null the back pointer) before removing it, so a lost removal race cannot time out a later operation. timeout_handler and the epoll loop are not under contract.",
  "C19": "push post-state and consumer-spins-while-push-in-flight as complete white-box obligations; sequential exactly-once / order / remove semantics / reference counting as bounded scenario stand-ins with symbolic payloads under CBMC pointer checks. Concurrent push vs remove is NOT decided.",
 }
 NOT_YET = {
@@ -67,8 +67,8 @@ def main():
         "engines": [
             {"name": "kani-contracts", "path": "tools/pipeline.py", "serves_properties": [c["property_id"] for c in checks],
              "kind_free_text": "Kani 0.68/CBMC function contracts and contract-form harnesses on the real crates (scratch copy, harness modules injected as child modules)"},
-            {"name": "verus-kernels-lemmas", "path": "verus/", "serves_properties": ["C08", "C18"],
-             "kind_free_text": "Verus single-file: functions re-extracted verbatim each run plus composition lemmas"},
+            {"name": "verus-kernels-lemmas", "path": "verus/", "serves_properties": ["C01", "C02", "C05", "C06", "C07", "C08", "C09", "C10", "C11", "C12", "C16", "C17", "C18"],
+             "kind_free_text": "Verus single-file: functions re-extracted verbatim each run (C08/C18 kernels) plus composition lemmas over the step contracts (L1 register-then-recheck, L2 release handshake; lemmas are about the contracts, not about code, and are listed as such in the evidence)"},
         ],
         "checks": checks,
         "not_applicable": na,
